@@ -1,5 +1,6 @@
 import VncModel.Basic.Proto
 import VncModel.Policy.Model
+import VncModel.Policy.Args
 /-! Line-protocol driver for the session-policy model (C14). Same script as harness/c14.c. -/
 open VncModel VncModel.Policy VncModel.Proto
 
@@ -16,7 +17,8 @@ def showClient (s : DState) (id : Nat) : String :=
   | some c =>
     let o := if c.isOpen then "open" else "closed"
     let st := match c.st with | .handshake => "hs" | .normal => "normal"
-    s!"{id}:{o}:{st}"
+    let r := if c.reverse then "r" else "i"
+    s!"{id}:{o}:{st}:{r}"
 
 def insertSorted (x : Nat) : List Nat → List Nat
   | [] => [x]
@@ -35,7 +37,21 @@ def dstep (s : DState) (toks : List String) : DState × List String :=
     match b? a, b? n, b? d with
     | some a, some n, some d => ({ s with cfg := ⟨a, n, d⟩ }, ["ok"])
     | _, _, _ => (s, ["bad-op"])
-  | "args" :: flags => ({ s with cfg := parseArgs s.cfg flags }, ["ok"])
+  | "args" :: flags =>
+    -- rfbProcessArguments on the live screen, with the harness's extension registered
+    let r := processArgs demoExt s.cfg [] flags
+    ({ s with cfg := r.cfg }, [" ".intercalate ((if r.ok then "ok" else "fail") :: r.left)])
+  | ["rconn", id, mode] =>
+    -- the real rfbReverseConnection: 1 = a viewer listens, 0 = connection refused, 2 = the
+    -- new-client hook refuses the record; a failed attempt leaves no trace
+    match id.toNat? with
+    | some id =>
+      if s.ever.contains id then (s, ["bad-op"]) else
+      if mode = "1" then
+        ({ s with cs := step s.cfg s.cs (.connect id true), ever := insertSorted id s.ever }, ["ok"])
+      else if mode = "0" || mode = "2" then (s, ["rc-failed"])
+      else (s, ["bad-op"])
+    | none => (s, ["bad-op"])
   | ["conn", id, rev] =>
     match id.toNat?, b? rev with
     | some id, some rev =>
